@@ -20,6 +20,7 @@ func init() {
 			"C02.R1 WMC: in-place write primitives only in the staging layer table",
 			"C02.R2 MPT: write -> flush -> close -> rename order in every publisher; failed close never publishes",
 			"C02.R3 staging name shape: Dir(destination) + \".\"+Base(destination)+suffix",
+			"C02.R5 FLAG: deferred publish keyed on a completion flag (a panic must not publish a partial staging file)",
 			"C02.R4 the destination of a rename is never removed beforehand (replacement is a single rename)",
 		},
 		Assumptions: []string{"rename(2) atomically replaces the destination within one filesystem", "the incremental (append) writers and PatchFile are in-place by API contract and not subject of 'replacing'"},
@@ -199,6 +200,11 @@ func runC02(c *Ctx) {
 	checkFlushBeforeReturn(c, "C02.R2")
 	checkStagingNames(c, "C02.R3")
 	checkNoUnlinkBeforeRename(c, "C02.R4")
+	// R5: a deferred publish (rename over the destination) is keyed on a completion flag, not on the error variable: after a
+	// panic the error is still nil and a half-written staging file would replace the destination (same rule as C01.R2).
+	r.MinInst["C02.R5"] = 40
+	pc := &pairCtx{c: c, triv: &triviality{cg: c.CG(), memo: map[*ssa.Function]int{}}, rule: "C02", r2: "C02.R5", flagOnly: true}
+	pc.runPair(c01Kinds)
 }
 
 // rename-type callees -> index of the destination argument (SSA argument list, receiver first for methods)
